@@ -294,10 +294,13 @@ pub enum AppOp {
     Handshake(u8),
     /// `write()` of the packet this frame decodes to
     Write(Vec<u8>),
+    /// `verify_version(on)`: the application switches the gate itself
+    SetVerify(bool),
 }
 
 fn app_packet(op: &AppOp, mode: &Mode) -> Option<Result<insim::insim::Isi, insim::Packet>> {
     match op {
+        AppOp::SetVerify(_) => None,
         AppOp::Handshake(v) => {
             let mut isi = insim::insim::Isi::default();
             isi.version = *v;
@@ -324,6 +327,9 @@ pub fn run_blocking_app(mode: &Mode, verify: bool, reads: Vec<ReadStep>, writes:
     let mut panic = None;
     for attempt in 0..max_reads {
         for (_, op) in app.iter().filter(|(k, _)| *k == attempt) {
+            if let AppOp::SetVerify(v) = op {
+                framed.verify_version(*v);
+            }
             let r = match app_packet(op, mode) {
                 Some(Ok(isi)) => guard(|| framed.handshake(isi).map_err(|e| e.to_string())),
                 Some(Err(p)) => guard(|| framed.write(p).map_err(|e| e.to_string())),
@@ -378,6 +384,9 @@ pub fn run_tokio_app(mode: &Mode, verify: bool, reads: Vec<ReadStep>, writes: Ve
             let mut results = vec![];
             for attempt in 0..max_reads {
                 for (_, op) in app.iter().filter(|(k, _)| *k == attempt) {
+                    if let AppOp::SetVerify(v) = op {
+                        framed.verify_version(*v);
+                    }
                     match app_packet(op, &mode2) {
                         Some(Ok(isi)) => {
                             let _ = framed.handshake(isi, std::time::Duration::from_secs(30)).await;
